@@ -214,6 +214,13 @@ def r2_include_order(ctx):
                     if w.exhaustive and w.it is not None and any(x[0] == 'field' and x[2] == 'cfgs' for x in walk(w.it)) and (w.trees is None or from_item(w.fn, w.trees[0])):
                         ok = True
             ctx.check(ok, 'all-cfgs-applied:%s' % k.split('::')[-1], '%s applies every kept configuration to the new node' % short(k), h.where())
+            # ... before any of the node's software is built: a constructor or stack factory that reads a property with a default would
+            # otherwise pin the default, and the keep-first Props::set would then discard the configured value
+            build = [c for c in h.calls() if c.name.endswith(('::to_processing_chain', 'ModuleContext::upgrade_dummy', 'ModuleRef::upgrade_dummy')) or (c.callee or '').endswith('Module::to_processing_chain')]
+            anchors = [(innermost_loop(h, c.b) if innermost_loop(h, c.b) is not None else c.b) for c in cs] + [w.anchor for w in per_item_calls(P, h, CAP) if w.form == 'consumer']
+            if build and anchors:
+                ctx.check(all(any(h.dominates(a, c.b) and a != c.b for a in anchors) for c in build), 'cfg-before-software:%s' % k.split('::')[-1],
+                          "%s applies the kept configurations before the node's software (processing chain, module state) is built" % short(k), build[0].where())
 
 
 def r3_typed_access(ctx):
